@@ -1,4 +1,4 @@
-(* CorePhase2AcctKwait.v -- the kernel-timer invariant (K1 of DESIGN A.4): under the
+(* CorePhase2K1Wait.v -- the kernel-timer invariant (K1 of DESIGN A.4): under the
    epoll-timerfd method, last_abs_count = 5 means that the timer descriptor is armed at
    (max last_abs 1ns) and still has its epoll entry; established by timeout_check,
    kept by everything that can run before the next timeout_check. *)
@@ -7,8 +7,8 @@ From Ivv Require Core.CoreRelFd.
 From Ivv Require Import Core.Kernel Core.CoreTypes Core.CoreFd Core.CoreModel Core.CoreSpec
   Core.CoreInvBase Core.CoreInvDefs Core.CoreInvFd Core.CoreInvPoll Core.CoreInvReg Core.CoreInvObj
   Core.CoreInvTm Core.CoreInvLoop Core.CoreInvWait
-  Core.CoreRelBase Core.CorePhase2AcctTr Core.CorePhase2AcctFd Core.CorePhase2AcctKt Core.CorePhase2AcctKfd
-  Core.CorePhase2AcctKact Core.CorePhase2AcctKinv Core.CorePhase2AcctKloop.
+  Core.CoreRelBase Core.CorePhase2K1Base Core.CorePhase2K1Fd
+  Core.CorePhase2K1Act Core.CorePhase2K1Inv Core.CorePhase2K1Loop.
 Import ListNotations.
 Local Open Scope Z_scope.
 
